@@ -39,6 +39,13 @@ def strategy(tier):
         spec = draw(gen.charts(max_states=10, mix=MIX, p_sends=0.2, p_notify=0.1, max_tr=10))
         spec = draw(gen.with_contracts(spec, p=0.6))
         spec = draw(gen.with_time_guards(spec, p=0.25))
+        names = [x['name'] for x in spec['states']]
+        for o in spec['states'] + spec['transitions']:
+            # some conditions and guards look at the live configuration through active()
+            if draw(st.floats(0, 1)) < 0.3:
+                o['c_active'] = draw(st.sampled_from(names))
+            if 'id' in o and 'tguard' not in o and draw(st.floats(0, 1)) < 0.3:
+                o['aguard'] = draw(st.sampled_from(names))
         ops = draw(gen.histories(spec, 6, 18, p_all=0.4, p_none=0.1, advances=True, delays=True))
         ncond = sum(len(o.get('c_' + k) or []) for o in spec['states'] + spec['transitions']
                     for k in ('pre', 'post', 'inv'))
